@@ -46,7 +46,7 @@ def model(s, i):
     return s.count("\n", 0, i) + 1, i - (s.rfind("\n", 0, i) + 1) + 1
 
 
-def check_dict(d, src, lines, what):
+def check_dict(d, src, lines, what, loops=False):
     """Bounds + offset/line consistency for one serialised position dict."""
     ln, col = d.get("start_line_no"), d.get("start_line_pos")
     if not (isinstance(ln, int) and isinstance(col, int)):
@@ -55,7 +55,9 @@ def check_dict(d, src, lines, what):
         return {"sig": f"{what}_position_outside_file", "detail": {"line": ln, "col": col, "n_lines": len(lines), "line_len": len(lines[ln - 1]) if 1 <= ln <= len(lines) else None, "dict": {k: d[k] for k in d if k != "fixes"}}}
     if "start_file_pos" in d:
         sp, ep = d["start_file_pos"], d.get("end_file_pos", d["start_file_pos"])
-        if not (0 <= sp <= len(src) and 0 <= ep <= len(src)) or sp > ep:
+        # NOTE: an anchor that spans a loop's backward jump has no single source range (same exemption as
+        # C01's spans_backward_jump); start > end is only judged for files without template loops.
+        if not (0 <= sp <= len(src) and 0 <= ep <= len(src)) or (sp > ep and not loops):
             return {"sig": f"{what}_offsets_out_of_bounds", "detail": {"start": sp, "end": ep, "len": len(src)}}
         if model(src, sp) != (ln, col):
             return {"sig": f"{what}_offset_disagrees_with_linecol", "detail": {"offset": sp, "reported": (ln, col), "computed": model(src, sp)}}
@@ -79,6 +81,7 @@ def run_case(case):
     fails = []
     counters = {"violations_checked": 0, "dicts_checked": 0, "first_char_checked": 0}
     classes = set()
+    loops = "loop" in (r.get("features") or [])
     if "conditional" in (r.get("features") or []):
         classes.add("jinja.conditional")
     for v in viols:
@@ -92,13 +95,13 @@ def run_case(case):
             fails.append({"sig": f"to_dict_raised:{type(e).__name__}", "detail": {"code": v.rule_code(), "err": repr(e)[:200]}})
             continue
         counters["dicts_checked"] += 1
-        f = check_dict(d, src, lines, "violation")
+        f = check_dict(d, src, lines, "violation", loops)
         if f:
             f["detail"]["code"] = v.rule_code()
             fails.append(f)
         for fx in d.get("fixes") or []:
             counters["dicts_checked"] += 1
-            f = check_dict(fx, src, lines, "fix")
+            f = check_dict(fx, src, lines, "fix", loops)
             if f:
                 f["detail"]["code"] = v.rule_code()
                 fails.append(f)
